@@ -2,6 +2,7 @@ package props
 
 import (
 	"fmt"
+	"strings"
 	"testing"
 	"testing/synctest"
 	"time"
@@ -253,7 +254,15 @@ func c19Scenario(name string, foreignFirst bool) *h.Scenario {
 	s.Init = func(hh *h.Hist) {
 		as := InitASGs(hh)
 		other := hh.W.AddASG(sim.ASG{Name: "asg-other", Min: 0, Max: 5, LabelKey: g1.Opts.LabelKey, LabelValue: g1.Opts.LabelValue})
-		addForeign := func() { hh.W.AddNode(other, sim.NodeOpt{Age: 50 * Q, TaintAge: dp(5 * Q)}) }
+		addForeign := func() {
+			if strings.Contains(name, "in-registered-asg") {
+				// the foreign instance lives in the ASG of the other configured group, the Node carries g1's label
+				n := hh.W.AddNode(as[1], sim.NodeOpt{Age: 50 * Q, TaintAge: dp(5 * Q)})
+				n.Labels[g1.Opts.LabelKey] = g1.Opts.LabelValue
+				return
+			}
+			hh.W.AddNode(other, sim.NodeOpt{Age: 50 * Q, TaintAge: dp(5 * Q)})
+		}
 		if foreignFirst {
 			addForeign()
 		}
@@ -541,6 +550,12 @@ func C19Scenarios(tier string) []*h.Scenario {
 			return append(ev, evRestart())
 		}
 		s.FaultOps = map[string]bool{sim.OpTerminate: true, sim.OpK8sDelete: true}
+		out = append(out, s)
+	}
+	{
+		s := c19Scenario("c19.foreign-in-registered-asg", false)
+		s.Slots = 4
+		s.Events = func(hh *h.Hist, slot int) []h.Event { return []h.Event{evRestart()} }
 		out = append(out, s)
 	}
 	// two removal batches in one scan (force-tainted, then expired) against a tight cloud minimum,
